@@ -30,7 +30,7 @@ EXTENDS Naturals, Sequences, FiniteSets, TLC, Json
 
 CONSTANTS Mode,      \* "tables" | "versions" | "lattice"
           Fmts,      \* subset of {"elf", "pe"}
-          K1, K2, K3,\* tables mode: max number of features of s1, s2, s3
+          K1, K2, K3,\* tables mode: max number of features of s1, s2, s3 (lattice: K1 = #features)
           NVer,      \* versions mode: number of symbols with a free version id (2..4)
           ReqNames,  \* subset of the names of ReqsOf
           Emit
@@ -99,7 +99,10 @@ VersionsWellFormed(D) ==
 ElfFeats == {"esi", "tab", "fn", "fwdk", "fwdv", "fwdn", "pers", "lsda", "cfix", "dq", "ref", "dda", "ddb", "ddn"}
 PeFeats == {"imp", "exp", "fn", "fwdk", "fwdv", "fwdn", "pers", "cfix", "dq", "ref", "dda", "ddb", "ddn"}
 Feats(fmt) == IF fmt = "elf" THEN ElfFeats ELSE PeFeats
-LatticeFeats(fmt) == IF fmt = "elf" THEN {"esi", "fwdv", "pers", "dq"} ELSE {"imp", "fwdv", "fn", "dq"}
+\* lattice mode: K1 (3 or 4) representative features, one per kind of container
+LatticeFeats(fmt) ==
+  (IF fmt = "elf" THEN {"esi", "fwdv", "dq"} ELSE {"imp", "fwdv", "dq"})
+  \cup (IF K1 >= 4 THEN (IF fmt = "elf" THEN {"pers"} ELSE {"fn"}) ELSE {})
 UpTo(S, k) == {x \in SUBSET S : Cardinality(x) <= k}
 
 \* the version universe of the renderer
